@@ -1,7 +1,7 @@
 (** Executable entry points of the C17 model for the correspondence driver. *)
 From Coq Require Import List NArith ZArith String Bool.
 From Tongo Require Import Lib.Bits Lib.Res Lib.Sx Model.Address Model.Shard Model.Adnl
-  Generated.Consts.
+  Model.AddressTlb Generated.Consts.
 Import ListNotations.
 Local Open Scope string_scope.
 Local Open Scope list_scope.
@@ -40,12 +40,13 @@ Definition run_parse_human (a : sx) : sx :=
   | _ => sx_err "parsehuman"
   end.
 
-(* tongo.ParseAddress on strings without '.' and '=' *)
+(* tongo.ParseAddress on strings without '=': only the account id is compared
+   (the Bounce field is not part of the property) *)
 Definition run_parse_address (a : sx) : sx :=
   match a with
   | SBytes cs =>
       match parse_address_lax cs with
-      | Ok (wc, addr, b) => SL [SZ wc; SBytes addr; SB b]
+      | Ok (wc, addr, _) => SL [SZ wc; SBytes addr]
       | Err _ => SA "err"
       | Panic _ => SA "panic"
       end
@@ -141,6 +142,58 @@ Definition run_parse_adnl (a : sx) : sx :=
   | _ => sx_err "parseadnl"
   end.
 
+(** TL-B form *)
+Definition out_bits (r : res bits) : sx :=
+  match r with Ok b => SBits b | Err _ => SA "err" | Panic _ => SA "panic" end.
+
+Definition out_acc_opt (r : res (option (Z * list N))) : sx :=
+  match r with
+  | Ok (Some (wc, a)) => SL [SZ wc; SBytes a]
+  | Ok None => SA "none"
+  | Err _ => SA "err"
+  | Panic _ => SA "panic"
+  end.
+
+(* (wc addr) -> bits of tlb.Marshal(id.ToMsgAddress()) *)
+Definition run_tlb (a : sx) : sx :=
+  match a with
+  | SL [SZ wc; SBytes addr] => out_bits (tlb_encode (to_msg_address wc addr))
+  | _ => sx_err "tlb"
+  end.
+
+Definition any_of (ex : bool) (d p : N) : option (N * N) := if ex then Some (d, p) else None.
+
+(* (exists depth pfx wc8 addr) -> bits of tlb.Marshal(MsgAddress{AddrStd}) *)
+Definition run_tlb_any (a : sx) : sx :=
+  match a with
+  | SL [SB ex; SN d; SN p; SZ wc; SBytes addr] => out_bits (tlb_encode (MAStd (any_of ex d p) wc addr))
+  | _ => sx_err "tlbany"
+  end.
+
+(* cell bits -> tlb.Unmarshal into MsgAddress -> AccountIDFromTlb *)
+Definition run_untlb (a : sx) : sx :=
+  match a with
+  | SBits l => out_acc_opt (account_from_tlb_bits l)
+  | _ => sx_err "untlb"
+  end.
+
+(* (exists depth pfx wc8 addr) -> AccountIDFromTlb(MsgAddress{AddrStd}) *)
+Definition run_from_tlb (a : sx) : sx :=
+  match a with
+  | SL [SB ex; SN d; SN p; SZ wc; SBytes addr] => out_acc_opt (account_from_tlb (MAStd (any_of ex d p) wc addr))
+  | _ => sx_err "fromtlb"
+  end.
+
+(** JSON form *)
+Definition run_json (a : sx) : sx :=
+  match a with
+  | SL [SZ wc; SBytes addr] => SBytes (json_marshal wc addr)
+  | _ => sx_err "json"
+  end.
+
+Definition run_unjson (a : sx) : sx :=
+  match a with SBytes cs => out_acc (json_unmarshal cs) | _ => sx_err "unjson" end.
+
 (* dispatcher of the C17 kinds (same lines go into Harness/Dispatch.v) *)
 Definition run (name : string) (a : sx) : sx :=
   let is x := String.eqb name x in
@@ -161,4 +214,10 @@ Definition run (name : string) (a : sx) : sx :=
   else if is "c17.shard.ident" then run_shard_ident a
   else if is "c17.adnl" then run_adnl a
   else if is "c17.parseadnl" then run_parse_adnl a
+  else if is "c17.tlb" then run_tlb a
+  else if is "c17.tlbany" then run_tlb_any a
+  else if is "c17.untlb" then run_untlb a
+  else if is "c17.fromtlb" then run_from_tlb a
+  else if is "c17.json" then run_json a
+  else if is "c17.unjson" then run_unjson a
   else sx_err "unknown case kind".
